@@ -68,6 +68,14 @@ def init (defaultName : Nat → N) (defaultHa : H) (puid : Nat) (uid : Option Na
   { puid := p, loc := ⟨u, name.getD (defaultName u), ha.getD defaultHa⟩,
     devs := [], uidR := [], nameR := [], haR := [] }
 
+/-- `RemoteStack(remotes=…, nameRemotes=…, haRemotes=…)`: the constructor takes the three index odicts from
+the caller as they are (`self.remotes = remotes if remotes is not None else odict()`), already holding the
+device objects `devs`, each index in whatever order the caller built it -/
+def initWith (defaultName : Nat → N) (defaultHa : H) (puid : Nat) (uid : Option Nat) (name : Option N)
+    (ha : Option H) (devs : List (Dev N H)) (uidR : List (Nat × Nat)) (nameR : List (N × Nat))
+    (haR : List (H × Nat)) : St N H :=
+  { init defaultName defaultHa puid uid name ha with devs := devs, uidR := uidR, nameR := nameR, haR := haR }
+
 /-- `IpDevice.__init__`: a given (truthy) ha has its host normalised (`norm`: `aioing.normalizeHost`, then
 '0.0.0.0' → '127.0.0.1', '::' → '::1'), a missing one is `('127.0.0.1', stack.Port)`.  Nothing else normalises:
 `rehaRemote`'s `remote.ha = new` stores `new` as given. -/
